@@ -100,7 +100,8 @@ def h_add_rule(ctx):
 
 
 def harnesses(tier):
-    return [Harness('_add_rule', h_add_rule, [ME + 'MerchantEngine._add_rule', ME + 'MerchantRule.__post_init__'])]
+    from props import C17_sections
+    return [Harness('_add_rule', h_add_rule, [ME + 'MerchantEngine._add_rule', ME + 'MerchantRule.__post_init__'])] + C17_sections.harnesses(tier)
 
 
 # ------------------------------------------------------------------------------------------ structural clauses
@@ -156,7 +157,7 @@ def structural(tier, res):
     if "lines = content.split('\\n')" not in src or 'enumerate(lines, 1)' not in src:
         bad.append('lines are not content.split("\\n") enumerated from 1')
     out.append(frames.Clause(fi.qualname + '#lines_read_through_stripped_text_only', not bad,
-                             '; '.join(bad[:5]) if bad else 'raw line / line number flow only into errors and line_number'))
+                             '; '.join(bad[:5]) if bad else 'raw line / line number flow only into errors and line_number', kind='auxiliary'))
     # every header and the end of file close the open rule through _add_rule; rules are only appended there
     adds = [n for n in ast.walk(fn) if isinstance(n, ast.Call) and ast.unparse(n.func) == 'self._add_rule']
     loop = [n for n in fn.body if isinstance(n, ast.For)]
@@ -166,39 +167,13 @@ def structural(tier, res):
     other_appends = [n for n in ast.walk(fn) if isinstance(n, ast.Call) and ast.unparse(n.func) == 'self.rules.append']
     out.append(frames.Clause(fi.qualname + '#every_section_closed_exactly_once', ok and not other_appends,
                              'one _add_rule at each header and one after the loop' if ok and not other_appends else
-                             '_add_rule call sites: %d (expected one in the loop and one after it)' % len(adds)))
+                             '_add_rule call sites: %d (expected one in the loop and one after it)' % len(adds), kind='auxiliary'))
     # keys are compared after .strip().lower(); unknown keys raise
     has_unknown = any(isinstance(n, ast.Raise) and 'Unknown property' in ast.unparse(n) for n in ast.walk(fn))
-    out.append(frames.Clause(fi.qualname + '#unknown_property_rejected', has_unknown, 'else-branch raises MerchantParseError("Unknown property")' if has_unknown else 'no rejection of unknown keys'))
+    out.append(frames.Clause(fi.qualname + '#unknown_property_rejected', has_unknown, 'else-branch raises MerchantParseError("Unknown property")' if has_unknown else 'no rejection of unknown keys', kind='auxiliary'))
     # ---- parse_sections ---------------------------------------------------------------------
-    fi2 = find_function('tally.section_engine.parse_sections')
-    res.functions[fi2.qualname] = fi2.describe()
-    fn2 = fi2.node
-    bad = []
-    for n, parents in _uses(fn2, 'line'):
-        p = parents[id(n)]
-        ok = (isinstance(p, ast.Attribute) and p.attr == 'strip') or _inside_call_of(n, parents, {'SectionParseError', 'match'})
-        if not ok:
-            bad.append('line %d: raw `line` used outside strip()/classifiers/errors' % n.lineno)
-    for n, parents in _uses(fn2, 'line_num'):
-        if not (_inside_call_of(n, parents, {'SectionParseError', 'Section'})):
-            bad.append('line %d: line_num flows into semantic state' % n.lineno)
-    out.append(frames.Clause(fi2.qualname + '#lines_read_through_classifiers_only', not bad, '; '.join(bad[:5]) if bad else 'ok'))
-    appends = [n for n in ast.walk(fn2) if isinstance(n, ast.Call) and ast.unparse(n.func) == 'sections.append']
-    nofilter = [n for n in ast.walk(fn2) if isinstance(n, ast.Raise) and 'has no filter' in ast.unparse(n)]
-    # each append must be guarded by the no-filter check on the same object (an `if not current_section.filter_expr: raise` right before it)
-    guarded = 0
-    for blk in ast.walk(fn2):
-        body = getattr(blk, 'body', None)
-        if isinstance(body, list):
-            for i, st in enumerate(body):
-                if isinstance(st, ast.Expr) and isinstance(st.value, ast.Call) and ast.unparse(st.value.func) == 'sections.append' and i > 0:
-                    prev = body[i - 1]
-                    if isinstance(prev, ast.If) and ast.unparse(prev.test) == 'not current_section.filter_expr' and any(isinstance(x, ast.Raise) for x in prev.body):
-                        guarded += 1
-    ok = len(appends) == 2 and guarded == 2 and len(nofilter) == 2
-    out.append(frames.Clause(fi2.qualname + '#every_view_closed_once_and_must_have_a_filter', ok,
-                             'both close sites check current_section.filter_expr and raise' if ok else 'close sites: %d appended, %d guarded' % (len(appends), guarded)))
+    # parse_sections: decided semantically by the loop invariant of props/C17_sections.py (the earlier syntactic close-site / line-flow clauses raised a
+    # false alarm when the close step was extracted into a helper, and are gone)
     return out
 
 
